@@ -924,7 +924,7 @@ func (x *Exec) contractEffects(fc *FuncContract, callee *ssa.Function, sig *type
 	env := &Env{x: x, st: x.topFrame.entry, old: x.topFrame.entry, names: map[string]Val{}, pkg: x.pkgOf(fc, callee)}
 	// dummy arguments of the right types
 	var ptypes []types.Type
-	if callee != nil {
+	if callee != nil && len(callee.Params) > 0 {
 		for _, p := range callee.Params {
 			ptypes = append(ptypes, p.Type())
 		}
